@@ -163,6 +163,7 @@ func (ex *Exec) forkUnknownPanic(pos token.Pos) {
 	var st *State
 	ex.withCond(cond, ex.st, func() { st = ex.jsEffect2(ex.st, true) })
 	ex.addAbrupt(cond, st, ex.freshPayload(), pos)
+	ex.continueWithout(q)
 }
 
 // forkContractPanic: a contracted callee that declares abrupt behaviour.
@@ -187,6 +188,7 @@ func (ex *Exec) forkContractPanic(cc *Contract, m map[string]Val, pre *State, po
 		}
 	})
 	ex.addAbrupt(cond, post, pv, pos)
+	ex.continueWithout(q)
 }
 
 func (ex *Exec) fillGhosts(cc *Contract, cl *Clause, m map[string]Val) {
@@ -474,7 +476,13 @@ func (ex *Exec) unwind(k int, start outcome) []outcome {
 	for i := k - 1; i >= 0; i-- {
 		var next []outcome
 		for _, o := range cur {
+			if o.dead {
+				ex.deadCtx++
+			}
 			outs := ex.runDeferred(ex.deferred[i], o.cond, o.st, o.pv)
+			if o.dead {
+				ex.deadCtx--
+			}
 			if o.dead {
 				for k := range outs {
 					outs[k].dead = true
@@ -714,4 +722,19 @@ func (ex *Exec) exitVarVal(name string) (Val, bool) {
 		return Val{}, false
 	}
 	return ex.env.loadVal(ex.st, av, deref(al.Type())), true
+}
+
+// continueWithout: the path that continues after a call that may panic is the one on which it did not.
+func (ex *Exec) continueWithout(q string) {
+	if ex.curBlock == nil {
+		return
+	}
+	old := ex.reach[ex.curBlock]
+	nr := ex.e.define("reach_np", "Bool", and2(old, "(not "+q+")"))
+	ex.reach[ex.curBlock] = nr
+	if ex.blockStart != nil {
+		if sc, ok := ex.blockStart[old]; ok {
+			ex.blockStart[nr] = sc
+		}
+	}
 }
